@@ -328,6 +328,11 @@ func VerifyHashed(pubx, puby, e, r, s []byte) (bool, error) {
 		return false, err
 	}
 
+	// [s]G + [t]P must be a finite point: the point at infinity has no x coordinate
+	if result.IsInfinity() {
+		return false, errors.New("encountered the point at infinity")
+	}
+
 	R := result.GetAffineX_Unsafe()
 	eInt.SetBytes(e)
 	R.Add(R, &eInt)
